@@ -314,6 +314,189 @@ def foreign_task(t, res):
         shutil.rmtree(d, ignore_errors=True)
 
 
+
+# ------------------------------------------------------------------ layer 3: cache-protocol histories (explicit-state BFS)
+# state  = what lies under the requested file name (absent / loads as the dataset of config X / some damaged bytes)
+# events = requests with every (load_local, save_local) combination, deletions, damages, foreign files put under the name
+# oracle = the property, evaluated on every transition (NOT a copy of the implementation's policy): a request returns
+#          exactly the requested dataset; it may raise only when a loadable file of a genuinely different configuration
+#          lies there (and load_local); it may serve the stored mazes when only the maze count differs; after a request
+#          that saves, a loadable file holding what was returned must be there.
+HIST_REQS = [(True, True), (False, True), (True, False), (False, False)]
+
+
+def hist_family():
+    A = dict(label="A", gen="gen_dfs", kw={}, n=4, seed=42, grid=3, name="c11h")
+    return dict(A=A, B=dict(A, seed=43), Ac=dict(A, n=6), Bg=dict(A, gen="gen_wilson"))
+
+
+def hist_events():
+    ev = [("req", l, s) for l, s in HIST_REQS]
+    ev += [("del",), ("empty",), ("trunc", "half"), ("trunc", "m1"), ("trunc", "22"), ("flip", "mid"), ("flip", "4"), ("append",)]
+    ev += [("put", k) for k in ("B", "Ac", "Bg", "A")]
+    return ev
+
+
+def _classify(path, fps):
+    """abstract state of the cache slot, measured by really loading the file"""
+    from maze_dataset import MazeDataset
+
+    if not os.path.exists(path):
+        return ("absent",)
+    b = open(path, "rb").read()
+    try:
+        ds = MazeDataset.read(path)
+        f = fp(ds)
+    except Exception:
+        return ("bad", digest(b))
+    for k, v in fps.items():
+        if v == f:
+            return ("ok", k)
+    return ("ok_other", f)
+
+
+def _apply_event(ev, path, files, intact=True):
+    kind = ev[0]
+    if kind == "del":
+        if os.path.exists(path):
+            os.remove(path)
+    elif kind == "empty":
+        open(path, "wb").close()
+    elif kind == "put":
+        with open(path, "wb") as f:
+            f.write(files[ev[1]])
+    elif kind in ("trunc", "flip", "append"):
+        if not os.path.exists(path):
+            return False  # not enabled
+        b = bytearray(open(path, "rb").read())
+        if len(b) < 30 or not intact:
+            return False  # damages apply to intact files only (keeps the state space finite; a damaged file is damaged)
+        if kind == "trunc":
+            cut = dict(half=len(b) // 2, m1=len(b) - 1)[ev[1]] if ev[1] in ("half", "m1") else len(b) - int(ev[1])
+            b = b[:cut]
+        elif kind == "flip":
+            o = len(b) // 2 if ev[1] == "mid" else int(ev[1])
+            b[o] ^= 0xFF
+        else:
+            b += b"\0" * 13
+        with open(path, "wb") as f:
+            f.write(bytes(b))
+    return True
+
+
+def _hist_build(hist, work, fnameA, files, fps, cfgA, res=None, judge_from=0):
+    """replay a history on a fresh cache directory; judge every request from index judge_from on. returns final state or None if not enabled"""
+    from maze_dataset import MazeDataset
+
+    for f in os.listdir(work):
+        os.remove(os.path.join(work, f))
+    path = os.path.join(work, fnameA)
+    for i, ev in enumerate(hist):
+        ev = tuple(ev)
+        if ev[0] != "req":
+            if not _apply_event(ev, path, files, intact=os.path.exists(path) and open(path, "rb").read() in files.values()):
+                return None
+            continue
+        pre = _classify(path, fps)
+        load, save = ev[1], ev[2]
+        exc, ds = None, None
+        try:
+            ds = MazeDataset.from_config(make_cfg(hist_family()["A"]), local_base_path=work, do_download=False, load_local=load, save_local=save)
+        except Exception as e:
+            exc = e
+        post = _classify(path, fps)
+        if res is None or i < judge_from:
+            continue
+        res.ev()
+        rd = dict(kind="history", hist=[list(e) for e in hist[: i + 1]])
+        desc = f"history {[list(e) for e in hist[:i + 1]]} (slot before the last request: {pre}, after: {post})"
+        tag = f"{pre[0]}{'' if pre[0] != 'ok' else ':' + pre[1]}|load={int(load)},save={int(save)}"
+        foreign = pre[0] == "ok" and pre[1] in ("B", "Bg")
+        if exc is not None:
+            if foreign and load:
+                res.count("hist_mismatch_raised")
+            else:
+                res.fail(f"C11|history|{tag}|raised|{type(exc).__name__}", f"from_config raised {type(exc).__name__}: {str(exc)[:150]} in {desc}", rd)
+            continue
+        got = fp(ds)
+        ok_data = got == fps["A"] or (load and pre == ("ok", "Ac") and got == fps["Ac"])
+        if not ok_data:
+            res.fail(f"C11|history|{tag}|wrong_data", f"from_config returned {len(ds)} mazes that are not the requested dataset in {desc}", rd)
+            continue
+        if save:
+            # a loadable file holding what was returned must be there (whether freshly saved or the one that was loaded)
+            if post[0] not in ("ok",) or fps[post[1]] != got:
+                res.fail(f"C11|history|{tag}|file_left_{post[0]}", f"after a saving request the cache slot is {post} although {len(ds)} mazes were returned, in {desc}", rd)
+        else:
+            if post != pre:
+                res.fail(f"C11|history|{tag}|nosave_request_changed_file", f"a request with save_local=False changed the cache slot, in {desc}", rd)
+    return _classify(path, fps)
+
+
+def history_task(t, res):
+    """BFS over cache-slot states; every transition is a real execution replayed from an empty directory"""
+    import collections
+
+    from maze_dataset import MazeDataset
+
+    fam = hist_family()
+    d = tempfile.mkdtemp(prefix="mzc11h.", dir=TMP_ROOT)
+    real_time = time.time
+    try:
+        time.time = lambda: 1_700_000_000.0
+        files, fps = {}, {}
+        fnameA = None
+        for k, spec in fam.items():
+            sub = os.path.join(d, "src_" + k)
+            os.makedirs(sub)
+            ds = MazeDataset.from_config(make_cfg(spec), local_base_path=sub, do_download=False)
+            fn = os.listdir(sub)[0]
+            files[k] = open(os.path.join(sub, fn), "rb").read()
+            fps[k] = fp(ds)
+            if k == "A":
+                fnameA = fn
+        assert len(set(fps.values())) == len(fps), "family members must hold different mazes"
+        work = os.path.join(d, "work")
+        os.makedirs(work)
+        events = hist_events()
+        depth = t["depth"]
+        seen = {("absent",): []}
+        frontier = collections.deque([[]])
+        ntrans = 0
+        maxd = 0
+        while frontier:
+            hist = frontier.popleft()
+            if len(hist) >= depth:
+                continue
+            for ev in events:
+                h2 = hist + [ev]
+                st = _hist_build(h2, work, fnameA, files, fps, None, res, judge_from=len(hist))
+                if st is None:
+                    continue
+                ntrans += 1
+                res.nontrivial(("hist", tuple(seen_key(hist, seen)), ev))
+                if st not in seen:
+                    seen[st] = h2
+                    frontier.append(h2)
+                    maxd = max(maxd, len(h2))
+        res.count("hist_states", len(seen))
+        res.count("hist_transitions", ntrans)
+        res.count("hist_max_depth", maxd)
+        for st in sorted(seen, key=repr)[:40]:
+            res.add("hist_state_kinds", st[0] + (":" + st[1] if st[0] == "ok" else ""))
+        res.sample(dict(layer="history", states=len(seen), transitions=ntrans, example=[list(e) for e in max(seen.values(), key=len)]), cap=6)
+    finally:
+        time.time = real_time
+        shutil.rmtree(d, ignore_errors=True)
+
+
+def seen_key(hist, seen):
+    for k, v in seen.items():
+        if v == hist:
+            return k
+    return ("?",)
+
+
 def run(ctx):
     specs = cfg_specs(ctx.tier)
     recdir = tempfile.mkdtemp(prefix="mzc11log.", dir=TMP_ROOT)
@@ -332,16 +515,23 @@ def run(ctx):
             for sl in range(ns):
                 tasks.append(dict(spec=s, rec=recpath, slice=sl, nslices=ns, tier=ctx.tier))
         tasks.append(dict(foreign=True))
+        tasks.append(dict(history=True, depth=4 if ctx.quick else 6))
         ctx.pmap("mzcheck.checks.c11", "dispatch", tasks)
     finally:
         shutil.rmtree(recdir, ignore_errors=True)
     c = ctx.res.counters
     ctx.coverage.update(configs=[s["label"] for s in specs], recorded={k: dict(size=len(v[1]), write_ops=len(v[0])) for k, v in ctx_rec.items()},
                         images_by_family={k[7:]: v for k, v in c.items() if k.startswith("images_")},
-                        foreign_pairs=len(foreign_family()) * (len(foreign_family()) - 1))
+                        foreign_pairs=len(foreign_family()) * (len(foreign_family()) - 1),
+                        history_layer=dict(states=c.get("hist_states", 0), transitions=c.get("hist_transitions", 0), max_depth=c.get("hist_max_depth", 0),
+                                           requests_judged_events=[list(e) for e in hist_events()],
+                                           mismatch_raised=c.get("hist_mismatch_raised", 0)))
     ctx.rule = ("crash images = every prefix of the recorded file-API write log of a real save (last write torn at 0,1,half,len-1; every byte in thorough), "
                 "truncation at a dense stride + all offsets near the end and around write boundaries (every offset in thorough), single-byte corruptions, "
-                "appended garbage, missing/empty file; foreign files for all ordered pairs of a one-field-different family; non-trivial = image differs from the intact file")
+                "appended garbage, missing/empty file; foreign files for all ordered pairs of a one-field-different family; cache-protocol layer: explicit-state BFS over the "
+                "content of the cache slot (absent / empty / intact file of 4 configurations / 6 damages of each) under 16 events (requests with all 4 load/save flag "
+                "combinations, delete, empty, damages, foreign files), every transition a real execution replayed from an empty directory and judged by the property; "
+                "non-trivial = image differs from the intact file, resp. distinct (state, event) transition")
     ctx.exhaustive = not ctx.quick
     ctx.assumptions += ["a crash leaves a prefix of the application's writes (no reordering below the file API)",
                         "zip/zanj timestamps frozen while recording so that the enumerated offsets are reproducible"]
@@ -350,6 +540,8 @@ def run(ctx):
 def dispatch(t, res):
     if t.get("foreign"):
         foreign_task(t, res)
+    elif t.get("history"):
+        history_task(t, res)
     else:
         image_task(t, res)
 
@@ -361,6 +553,9 @@ def replay(d, res):
         for f in sub.fails:
             if f["replay"].get("a") == d["a"] and f["replay"].get("b") == d["b"]:
                 res.fail(f["key"], f["what"], f["replay"])
+        return
+    if d["kind"] == "history":
+        replay_history(d, res)
         return
     spec = d["spec"]
     if "kw" in spec:
@@ -375,4 +570,31 @@ def replay(d, res):
         img = None if d["image_hex"] is None else bytes.fromhex(d["image_hex"])
         judge_image(spec, cfg, path, d["family"], d["desc"], img, want, res)
     finally:
+        shutil.rmtree(dd, ignore_errors=True)
+
+
+def replay_history(d, res):
+    from maze_dataset import MazeDataset
+
+    fam = hist_family()
+    dd = tempfile.mkdtemp(prefix="mzc11hr.", dir=TMP_ROOT)
+    real_time = time.time
+    try:
+        time.time = lambda: 1_700_000_000.0
+        files, fps, fnameA = {}, {}, None
+        for k, spec in fam.items():
+            sub = os.path.join(dd, "src_" + k)
+            os.makedirs(sub)
+            ds = MazeDataset.from_config(make_cfg(spec), local_base_path=sub, do_download=False)
+            fn = os.listdir(sub)[0]
+            files[k] = open(os.path.join(sub, fn), "rb").read()
+            fps[k] = fp(ds)
+            if k == "A":
+                fnameA = fn
+        work = os.path.join(dd, "work")
+        os.makedirs(work)
+        hist = [tuple(e) for e in d["hist"]]
+        _hist_build(hist, work, fnameA, files, fps, None, res, judge_from=len(hist) - 1)
+    finally:
+        time.time = real_time
         shutil.rmtree(dd, ignore_errors=True)
